@@ -20,3 +20,5 @@ fn cs() -> Checksum { Checksum::from([7u8; 32]) }
 #[test] fn with_reply_empty_keeps_rest() { let w = ContractWrapper::new(ex, ex, qu).with_checksum(cs()).with_reply_empty(re); assert_eq!(w.checksum(), Some(cs())); }
 #[test] fn with_migrate_keeps_rest() { let w = ContractWrapper::new(ex, ex, qu).with_checksum(cs()).with_migrate(pe); assert_eq!(w.checksum(), Some(cs())); }
 #[test] fn with_migrate_empty_keeps_rest() { let w = ContractWrapper::new(ex, ex, qu).with_checksum(cs()).with_migrate_empty(pe); assert_eq!(w.checksum(), Some(cs())); }
+#[test] fn new_has_no_optional_parts() { let w = ContractWrapper::new(ex, ex, qu); assert_eq!(w.checksum(), None); }
+#[test] fn new_with_empty_has_no_optional_parts() { let w: ContractWrapper<Empty, Empty, Empty, StdError, StdError, StdError> = ContractWrapper::new_with_empty(ex, ex, qu); assert_eq!(w.checksum(), None); }
